@@ -419,7 +419,7 @@ fn run_c18_net(input: RunInput) -> ScenFuture {
         let limit = w.param("limit", 1, 3) as usize;
         let block = w.flag("block_mode", 0.5);
         let n_clients = w.param("clients", 2, 3) as usize;
-        let n_req = w.param("requests", 1, 40) as u64;
+        let n_req = w.param("requests", 1, if w.tier == Tier::Quick { 40 } else { 100 }) as u64;
         let inner = GaugeSvc { st: Default::default(), fabric: w.fabric.clone() };
         let layer = InflightLimitLayer::new(limit, if block { WaitMode::Block } else { WaitMode::ReturnError });
         let cfg = base_config(10_000, Some(2_000));
@@ -547,7 +547,7 @@ fn run_c19(input: RunInput) -> ScenFuture {
         let burst = w.param("burst", 1, 8) as u32;
         let block = w.flag("block_mode", 0.5);
         let n_peers = w.param("peers", 1, 4) as usize;
-        let n_req = w.param("requests", 1, 80) as u64;
+        let n_req = w.param("requests", 1, if w.tier == Tier::Quick { 80 } else { 200 }) as u64;
         let period = Duration::from_secs(3600);
         let quota = governor::Quota::with_period(period).unwrap().allow_burst(std::num::NonZeroU32::new(burst).unwrap());
         let inner = GaugeSvc { st: Default::default(), fabric: w.fabric.clone() };
@@ -645,7 +645,7 @@ fn run_c19_net(input: RunInput) -> ScenFuture {
         let burst = w.param("burst", 1, 4) as u64;
         let block = w.flag("block_mode", 0.5);
         let n_clients = w.param("clients", 2, 3) as usize;
-        let n_req = w.param("requests", 1, 60) as u64;
+        let n_req = w.param("requests", 1, if w.tier == Tier::Quick { 60 } else { 150 }) as u64;
         let period_ms = [20u64, 50, 100, 250, 500][w.param("period_class", 0, 4) as usize];
         let t_ns = period_ms * 1_000_000;
         let quota = governor::Quota::with_period(Duration::from_millis(period_ms)).unwrap().allow_burst(std::num::NonZeroU32::new(burst as u32).unwrap());
@@ -872,7 +872,7 @@ fn run_c19_virtual(input: RunInput) -> ScenFuture {
         let burst = w.param("burst", 1, 8) as u64;
         let block = w.flag("block_mode", 0.5);
         let n_peers = w.param("peers", 1, 4) as usize;
-        let n_req = w.param("requests", 5, 120) as u64;
+        let n_req = w.param("requests", 5, if w.tier == Tier::Quick { 120 } else { 300 }) as u64;
         let period_ms = [2u64, 5, 10, 25, 100, 250, 1000, 2000][w.param("period_class", 0, 7) as usize];
         let span_periods = w.param("span_periods", 1, 40) as u64;
         let cancel = block && w.flag("cancel_waiters", 0.3);
@@ -1109,7 +1109,7 @@ fn run_c19_virtual(input: RunInput) -> ScenFuture {
 fn run_c20_direct(input: RunInput) -> ScenFuture {
     Box::pin(async move {
         let w = World::new(&input, LinkCfg::clean(100, 100));
-        let n_req = w.param("requests", 1, 100) as u64;
+        let n_req = w.param("requests", 1, if w.tier == Tier::Quick { 100 } else { 250 }) as u64;
         let closure_auth = w.flag("closure_authorizer", 0.4);
         let mut r = w.rng("wl:c20");
         // identities: ordinary ones plus the unusual (all-zero, all-ones, single-bit neighbours)
@@ -1260,7 +1260,7 @@ fn run_c20_net(input: RunInput) -> ScenFuture {
         let w = World::new(&input, LinkCfg::clean(200, 4_000));
         let lossy = w.flag("lossy", 0.3);
         let n_clients = w.param("clients", 3, 5) as usize;
-        let n_req = w.param("requests", 1, 40) as u64;
+        let n_req = w.param("requests", 1, if w.tier == Tier::Quick { 40 } else { 100 }) as u64;
         let cfg = base_config(10_000, Some(2_000));
         let mut r = w.rng("wl:c20net");
         // identities are fixed by the seed before the server is built
